@@ -197,6 +197,23 @@ def explore(ctx):
             oracle(ctx, on, off, o1, o2, mode='each')
             if not (o1.diverged or o2.diverged):
                 each.append((driver.coq_scenario(on, o1.perm), o1.out, on))
+    # hanging candidates: a replay pays no timeouts, a re-run pays them again - the limit is per round, so both end alike
+    for nn in (1, 2):
+        body = 'abc'
+        P = {'key': 1, 'ops': [('delch', 'a'), ('delch', 'b'), ('delch', 'c')], 'aos': 0, 'maxt': None, 'newfix': None}
+        G = {'key': 2, 'ops': [('set', body)], 'aos': 1, 'maxt': None, 'newfix': None}
+        sc = {'files': [('f0.c', body)], 'rules': [([('nothas', 0, 'a')], 'timeout'), ([('nothas', 0, 'b')], 'timeout'), ([], 0)],
+              'passes': [dict(P), dict(G), dict(P), dict(G), dict(P)],
+              'cfg': {'N': nn, 'no_cache': False, 'maxto': 3}, 'sched': [1] * 60}
+        on = dict(sc, cfg=dict(sc['cfg'], no_cache=False))
+        off = dict(sc, cfg=dict(sc['cfg'], no_cache=True))
+        o1 = driver.run_scenario(on, ctx.tmp)
+        o2 = driver.run_scenario(off, ctx.tmp)
+        ctx.evaluations += 2
+        ctx.count('replay-with-hanging-candidates')
+        oracle(ctx, on, off, o1, o2, mode='each')
+        if not (o1.diverged or o2.diverged):
+            each.append((driver.coq_scenario(off, o2.perm), o2.out, off))
     # bytes that a text-mode round trip would change (CR, CR LF, bytes that are not UTF-8, NUL): what a replay writes must be
     # byte for byte what the pass produced
     for body in ('a\r\nb\ra\r', 'a\xff\r\n\xe9a\x00z', '\r\na\n\ra'):
